@@ -50,6 +50,15 @@ func VC05Shift(c *Cache, d, total time.Duration) {
 	}
 }
 
+// VC05FreshEntryLimiters drops the process-global pools of per-entry limiters (shared_ratelimiter.go), so that
+// the next server's entries draw full buckets: the state a refill pause of one second reaches, without the wait.
+// Only for drivers that build a fresh Cache afterwards (live entries keep the limiter they were given).
+func VC05FreshEntryLimiters() {
+	poolsMu.Lock()
+	rateLimiterPools = make(map[int]*sharedRateLimiterPool)
+	poolsMu.Unlock()
+}
+
 // VC05PrefetchIdle waits until the background refresh queue has nothing queued and no entry
 // holds a prefetch claim (a claim is released when the refresh replaced the entry, failed or was
 // dropped), so that a refresh started by one packet of a history is finished before the next
